@@ -103,6 +103,17 @@ func iterationCallbacksContinue(r *Run, rule string) {
 			}
 		}
 		walk(f)
+		// closures defined in helpers a refactoring split off this function count as its own
+		for _, h := range P.RepoFns {
+			if h.Parent() != nil || !P.isNewHelper(h) {
+				continue
+			}
+			for _, pf := range P.pinnedCallersOf(h) {
+				if enclosingTop(pf) == f {
+					walk(h)
+				}
+			}
+		}
 		never := 0
 		for _, c := range cls {
 			res := c.Signature.Results()
